@@ -300,11 +300,15 @@ def bfs_shards(depth):
     out = []
     for i, (_, st) in enumerate(corpus):
         r = len(L.rewrites(st))
-        est = r ** depth // (1, 1, 2, 6)[depth]
+        d = depth if (depth < 3 or r <= DEPTH3_MAX_REWRITES) else depth - 1
+        est = r ** d // (1, 1, 2, 6)[d]
         parts = max(1, min(8, -(-est // 250000)))
-        out.extend((est // parts, i, k, parts) for k in range(parts))
-    out.sort(key=lambda t: (-t[0], t[1], t[2]))
-    return [(depth, i, k, parts) for _, i, k, parts in out]
+        out.extend((est // parts, d, i, k, parts) for k in range(parts))
+    out.sort(key=lambda t: (-t[0], t[2], t[3]))
+    return [(d, i, k, parts) for _, d, i, k, parts in out]
+
+
+DEPTH3_MAX_REWRITES = 250    # a root with more depth-1 rewrites than this is searched to depth 2 in thorough as well (time budget)
 
 
 def fam_shipped(arg):
@@ -565,7 +569,9 @@ def families(tier):
                f'{len(small)} corpus programs of 2..8 lines: every assignment of (no cut | cut keeping the line end | cut dropping the line end) to every line boundary',
                expected=sum(3 ** (L.physical_lines(corpus[i][1]) - 1) for i in small)),
         Family('bfs_corpus', fam_bfs, bfs_shards(depth),
-               f'{len(corpus)} corpus programs, every text reachable by <= {depth} layout rewrites (de-duplicated on the text)'),
+               f'{len(corpus)} corpus programs, every text reachable by <= {depth} layout rewrites (de-duplicated on the text)'
+               + (f'; depth 2 for the {sum(1 for _, st in corpus if len(L.rewrites(st)) > DEPTH3_MAX_REWRITES)} program(s) with more than '
+                  f'{DEPTH3_MAX_REWRITES} depth-1 rewrites' if depth >= 3 else '')),
         Family('bfs_shipped', fam_shipped, ship,
                f'{len(names)} shipped .bare files, every text reachable by 1 layout rewrite'
                + (f' (2 rewrites for the files of <= {SHORT_FILE_LINES} lines)' if tier == 'thorough' else '')),
